@@ -86,6 +86,14 @@ def apply_op(ds, op, aux=None, args=None):
         return spec.scale_by_hs(op["expr"], **kw)
     if m == "interp_like":
         return spec.interp_like(args["other"], **kw)
+    if m == "rmse":
+        other = args.get("other")
+        if other is None:
+            import xarray as xr
+
+            e = ds if isinstance(ds, xr.DataArray) else ds["efth"]
+            other = (e * op.get("factor", 1.25) + op.get("shift", 0.5)).rename(e.name)   # same backing as the spectra themselves
+        return spec.rmse(other)
     if m == "interp":
         freq = args["freq"] if "freq" in args else (None if op.get("freq") is None else np.asarray(op["freq"], dtype=float))
         dirs = args["dir"] if "dir" in args else (None if op.get("dir") is None else np.asarray(op["dir"], dtype=float))
@@ -133,7 +141,7 @@ def gen_op(rng, recipe, pool="all"):
     fr = None
     groups = []
     if pool in ("all", "stats"):
-        groups += ["stat"] * 6 + ["stat_kw", "stats", "split", "scale", "depthfn"]
+        groups += ["stat"] * 6 + ["stat_kw", "stats", "split", "scale", "depthfn", "rmse"]
     if pool in ("all", "transform") and has_dir:
         groups += ["smooth", "rotate", "interp"]
     if pool in ("all", "partition") and has_dir and nd >= 3 and nf >= 3:
@@ -162,6 +170,8 @@ def gen_op(rng, recipe, pool="all"):
     if g == "stat":
         names = [n for n in SIMPLE_STATS if has_dir or n not in NEEDS_DIR]
         return {"m": rng.choice(names), "via": via}
+    if g == "rmse":
+        return {"m": "rmse", "via": via, "factor": rng.choice([1.25, 0.5, 1.0]), "shift": rng.choice([0.5, 0.0])}
     if g == "depthfn":
         # statistics that take the water depth: a number, or the dataset's own depth variable
         m = rng.choice(["celerity", "celerity", "wavelen"] + (["uss_x", "mss"] if has_dir else ["mss"]))
